@@ -304,7 +304,7 @@ pub fn parts(tier: Tier, oracles: u8) -> Vec<Part> {
     // (b) every ordered subset of {0..n-1} with flushes and acks of acks in between
     let n = tier.pick(5u64, 7u64);
     let mut w = AckWorld::with_oracles((0..n).collect(), oracles);
-    w.max_outstanding = tier.pick(1, 2);
+    w.max_outstanding = 2;
     v.push(Part {
         name: format!("ordered-subsets-of-0..{}", n),
         world: Ok(w),
